@@ -63,6 +63,16 @@ Proof.
   cbv zeta. split; [intros _; eexists; split; reflexivity|]. vm_compute. repeat split; reflexivity.
 Qed.
 
+(* ---- Poset::from_edges (dedup + Kahn): every accepted input is a well-formed poset ---- *)
+(* acyclicity witness (rank = position in topo_up), children/parents consistent and duplicate-free,
+   topo_up a permutation of the nodes with every child before its parents, parents = the edges *)
+Theorem C28_from_edges_wf : forall n edges p,
+  (forall c q, In (c, q) edges -> c < n /\ q < n) ->
+  from_edges n edges = inl p ->
+  (exists rk, wf_poset p rk) /\ topo_ok p /\ pn p = n /\ length (ppar p) = n /\ length (pch p) = n /\
+  (forall c q, In q (parents p c) <-> In (c, q) edges).
+Proof. exact from_edges_wf. Qed.
+
 (* ---- nested-set encoding: trees and forests of every size ---- *)
 (* subsumption test = brute-force closure *)
 Theorem C28_nested_subsumes : forall p rk m r, wf_poset p rk -> forest p ->
@@ -80,6 +90,25 @@ Theorem C28_nested_desc : forall p rk m r, wf_poset p rk -> forest p ->
   length d = length (spec_desc p y).
 Proof. exact nested_descendants. Qed.
 
+(* the same, unconditionally on every poset from_edges accepts and the probe sends to nested-set *)
+Theorem C28_nested_reachable : forall n edges p m r,
+  (forall c q, In (c, q) edges -> c < n /\ q < n) ->
+  from_edges n edges = inl p -> is_tree p = true ->
+  forall x y, x < n -> y < n ->
+  let ix := mk_index p (build_nested p) m r in
+  subsumes ix x y = spec_subsumes p x y /\
+  NoDup (descendants ix y) /\ (forall z, In z (descendants ix y) <-> In z (spec_desc p y)) /\
+  descendant_count ix y = length (spec_desc p y).
+Proof.
+  intros n edges p m r Hr H Ht x y Hx Hy.
+  destruct (from_edges_wf n edges p Hr H) as [[rk W] [_ [Hn _]]]. subst n.
+  pose proof (is_tree_forest p Ht) as F.
+  destruct (nested_descendants p rk m r W F y Hy) as [D1 [D2 [D3 D4]]].
+  cbv zeta. repeat split; auto; try apply D2.
+  - apply (nested_subsumes p rk m r W F); auto.
+  - congruence.
+Qed.
+
 Definition ex_forest : poset :=
   {| pn := 5; ppar := [[]; [0]; [0]; [1]; []]; pch := [[1; 2]; [3]; []; []; []]; ptopo := [2; 3; 4; 1; 0] |}.
 Definition ex_rk (v : nat) : nat := match v with 0 => 2 | 1 => 1 | _ => 0 end.
@@ -96,7 +125,6 @@ Proof.
   split; [|split; [|vm_compute; repeat split; reflexivity]].
   - constructor.
     + intros x q. destruct x as [|[|[|[|[|[|x]]]]]]; cbn; intuition (subst; cbn; lia).
-    + intros v. destruct v as [|[|[|[|[|[|v]]]]]]; cbn; lia.
     + intros c v. destruct c as [|[|[|[|[|[|c]]]]]]; destruct v as [|[|[|[|[|[|v]]]]]]; cbn;
         intuition (try discriminate; try lia).
     + intros v. destruct v as [|[|[|[|[|[|v]]]]]]; cbn; repeat constructor; cbn; intuition (try discriminate; try lia).
@@ -163,18 +191,11 @@ Example C28_chain_suffix_nonvacuous :
 Proof. vm_compute. repeat split; reflexivity. Qed.
 
 (* ================= what is NOT carried by a theorem (visible, unproved) ================= *)
-Definition topo_ok (p : poset) : Prop :=
-  NoDup (ptopo p) /\ (forall v, In v (ptopo p) <-> v < pn p) /\
-  forall c q, In q (parents p c) -> index_of c (ptopo p) < index_of q (ptopo p).
-
-(* Poset::from_edges produces a well-formed poset exactly on acyclic inputs *)
-Definition C28_from_edges_wf_full : Prop :=
-  forall n edges, (forall c q, In (c, q) edges -> c < n /\ q < n) ->
-  match from_edges n edges with
-  | inl p => (exists rk, wf_poset p rk) /\ topo_ok p /\ pn p = n /\
-             forall c q, In q (parents p c) <-> In (c, q) edges
-  | inr _ => ~ exists rk : nat -> nat, forall c q, In (c, q) edges -> rk c < rk q
-  end.
+(* Poset::from_edges rejects only cyclic inputs (the accepting direction is C28_from_edges_wf) *)
+Definition C28_from_edges_complete_full : Prop :=
+  forall n edges e, (forall c q, In (c, q) edges -> c < n /\ q < n) ->
+  from_edges n edges = inr e ->
+  ~ exists rk : nat -> nat, forall c q, In (c, q) edges -> rk c < rk q.
 
 (* subsumption / descendants / count under EVERY encoding the probe can select or that can be forced *)
 Definition C28_subsumes_desc_full : Prop :=
@@ -222,13 +243,15 @@ Definition C28_lca_full : Prop :=
   forall c, In c (lowest_common_ancestors (mk_index p en m r) x y) <-> In c (spec_lca p x y).
 
 Definition C28_full : Prop :=
-  C28_from_edges_wf_full /\ C28_subsumes_desc_full /\ C28_chain_partition_full /\
+  C28_from_edges_complete_full /\ C28_subsumes_desc_full /\ C28_chain_partition_full /\
   C28_rollup_full /\ C28_update_commutes_full /\ C28_segtree_full /\ C28_lca_full.
 
 Print Assumptions C28_spec_closure.
 Print Assumptions C28_stale_until_rebuild.
 Print Assumptions C28_measure_synced.
 Print Assumptions C28_refuted.
+Print Assumptions C28_from_edges_wf.
+Print Assumptions C28_nested_reachable.
 Print Assumptions C28_nested_subsumes.
 Print Assumptions C28_nested_desc.
 Print Assumptions C28_rollup_fenwick_build_partial.
